@@ -29,6 +29,8 @@ type Watchdog struct {
 	gen   int64
 	// Attribute maps the operation in progress to the property a wedge is reported under.
 	Attribute func(op string) string
+	// NoVerdict: operations for which an exceeded limit is only reported as inconclusive
+	NoVerdict func(op string) bool
 }
 
 func NewWatchdog(col *Collector, limit time.Duration) *Watchdog {
@@ -131,6 +133,13 @@ func (w *Watchdog) loop() {
 		var witness any
 		if wit != nil {
 			witness = wit()
+		}
+		if w.NoVerdict != nil && w.NoVerdict(op) {
+			// operations whose duration depends on the outside world (real sockets): never a wedge verdict
+			w.col.Inconclusive(prop, "watchdog:slow-scenario:"+strings.SplitN(op, ":", 2)[0])
+			fmt.Fprintf(os.Stderr, "SLOW %s op=%s\n", scn, op)
+			w.col.Write(false)
+			os.Exit(7)
 		}
 		if len(wedged) > 0 && !busy {
 			fn := wedged[0].libFrame
